@@ -13,9 +13,10 @@ target cases     : a class shape or callable kind is generated as *source text*,
                      - configurable(...) result keeps __name__/__doc__/inspect.signature;
                      - class versions: issubclass, __name__/__module__/__doc__, isinstance, exact
                        type (no registered method), pickle round trip when the original pickles.
-invalid cases    : bad name / bad module / different object under an existing full name / unknown
-                   allow- or denylist name / both lists -> raises, and a probe of the registry
-                   (old names, new names, the objects) is unchanged.
+invalid cases    : bad name / bad module / different object under an existing full name (a fresh
+                   object, or one that is itself already registered under another name, or Gin's
+                   wrapper of it) / unknown allow- or denylist name / both lists -> raises, and a
+                   probe of the registry (old names, new names, the objects) is unchanged.
 interactive cases: re-registration is rejected outside, accepted inside an interactive block
                    (context manager left normally or by exception, or enter/exit calls) and
                    rejected again after it.
@@ -39,7 +40,7 @@ ID = 'C13'
 LEVEL = 'exploration'
 ISOLATE = True
 BUDGET = {'quick': (4, 500), 'thorough': (16, 1500)}
-RULE = ('target cases: class shape or callable kind (27 kinds, generated as source text and '
+RULE = ('target cases: class shape or callable kind (29 kinds, generated as source text and '
         'exec\'ed in real modules) x API (configurable/register/external_configurable) x '
         'decorator form (bare, call, name, name+module, module, dotted name, dotted name+module) '
         'x scope ("" / s / s/t) x Hypothesis-generated signature (0-2 positional, 0-2 defaulted, '
@@ -48,8 +49,10 @@ RULE = ('target cases: class shape or callable kind (27 kinds, generated as sour
         'product on one rich signature (exhaustive), all forms x APIs on four kinds, every '
         'invalid-registration fault x API x target x interactive flag, every interactive exit '
         'kind x API x API. invalid cases: 0-2 prior registrations, then one faulty registration '
-        '(8 bad names, 8 bad modules, same full name via 3 spellings, unknown allow/deny names, '
-        'both lists). interactive cases: exit in {normal, exception after / before the '
+        '(8 bad names, 8 bad modules, a fresh object under an existing full name via 3 spellings, '
+        'an object -- or Gin\'s wrapper of it -- that is already registered under another name '
+        'put under a full name held by a different object, unknown allow/deny names, both '
+        'lists). interactive cases: exit in {normal, exception after / before the '
         're-registration, explicit enter/exit}. Non-trivial (target) = (class shape other than '
         'plain __init__ or API other than configurable) with a binding present and a scope '
         'applied; (invalid/interactive) = same shape/API condition and at least one other '
@@ -134,6 +137,10 @@ KINDS = {
     'cfg_method': (True, 'full', True, True),
     'builtin_dict': (True, 'varkw', True, False),
     'fn': (False, 'full', True, False),
+    # a function already decorated by an ordinary functools.wraps decorator (it carries
+    # __wrapped__, its inner function is unknown to Gin) -- one and two levels
+    'wrapped_fn': (False, 'full', True, False),
+    'wrapped_fn2': (False, 'full', True, False),
     'lambda': (False, 'full', False, False),
     'callobj': (False, 'full', False, False),
     'partial': (False, 'full', False, False),
@@ -285,6 +292,11 @@ def build_source(kind, sig, doc, tag=False):
     rec_attr = 'def _rec(x):\n  return dict(x)\n'
   elif kind == 'fn':
     body = f'def K({s(sig)}):\n{d}  return {r}\n'
+  elif kind in ('wrapped_fn', 'wrapped_fn2'):
+    body = ('def _deco(fn):\n  @functools.wraps(fn)\n  def wrapper(*args, **kwargs):\n'
+            '    return fn(*args, **kwargs)\n  return wrapper\n\n' +
+            '@_deco\n' * (1 if kind == 'wrapped_fn' else 2) +
+            f'def K({s(sig)}):\n{d}  return {r}\n')
   elif kind == 'lambda':
     body = f'K = lambda {s(sig)}: {r}\n'
   elif kind == 'callobj':
@@ -687,9 +699,12 @@ def check_target(case):
 
 # ----------------------------------------------------------------------------- registry probe
 INVALID_TARGETS = ['fn', 'init', 'new', 'meta', 'namedtuple', 'slots', 'callobj', 'lambda',
-                   'dataclass', 'reg_method']
+                   'dataclass', 'reg_method', 'wrapped_fn']
 BAD_NAMES = ['', '1abc', 'a-b', 'a..b', '.a', 'a.', 'a b', 's/a']
-FAULTS = ['bad_name', 'bad_module', 'duplicate', 'unknown_allow', 'unknown_deny', 'both_lists']
+FAULTS = ['bad_name', 'bad_module', 'duplicate', 'duplicate_registered', 'unknown_allow',
+          'unknown_deny', 'both_lists']
+DUP_FAULTS = ('duplicate', 'duplicate_registered')
+OTHER_FULL = 'pk.one.nm1'
 PRIOR = [('pk.mod', 'f0'), ('pk', 'K1'), ('other', 'nm')]
 
 
@@ -765,7 +780,7 @@ def check_invalid(case):
   if kind not in INVALID_TARGETS or api not in APIS or fault not in FAULTS:
     raise OutOfDomain('cell not in domain')
   variant = int(case.get('variant', 0))
-  interactive = bool(case.get('interactive')) and fault != 'duplicate'
+  interactive = bool(case.get('interactive')) and fault not in DUP_FAULTS
   labels = {'kind:invalid', 'fault:' + fault, 'api:' + api, 'shape:' + kind,
             'target:class' if KINDS[kind][0] else 'target:callable'}
   priors = make_prior(int(case.get('prior', 0)) % 4)
@@ -773,6 +788,7 @@ def check_invalid(case):
   new = build_tagged(kind, MOD_A)
   obj = new.K
   existing = None
+  first_holder = None
   form = 'name_module'
   name, module, lists = NM, MODNAME, {}
   if fault == 'bad_name':
@@ -792,6 +808,23 @@ def check_invalid(case):
     existing = old
     name, module = spell[(variant // 9) % 3]
     labels.add('dup-same-spelling' if (n0, m0) == (name, module) else 'dup-other-spelling')
+  elif fault == 'duplicate_registered':
+    # three steps: A (this object) is registered under pk.one.nm1, a different object B of the
+    # same kind under pk.mod.nm, then A -- or the wrapper Gin returned for A -- is registered
+    # again under pk.mod.nm: a different object already holds that full name
+    a_api, b_api = APIS[variant % 3], APIS[(variant // 3) % 3]
+    ret = do_register(a_api, 'name_module', new.K, name='nm1', module='pk.one')
+    old = build_tagged(kind, MOD_T)
+    spell = [(NM, MODNAME), ('mod.' + NM, 'pk'), ('pk.mod.' + NM, None)]
+    n0, m0 = spell[(variant // 18) % 3]
+    do_register(b_api, 'name_module', old.K, name=n0, module=m0)
+    existing = old
+    first_holder = new.K
+    if (variant // 9) % 2 and ret is not new.K:
+      obj = ret                      # hand Gin's own wrapper of A to the API
+      labels.add('dup-registered:wrapper-handed')
+    name, module = spell[(variant // 54) % 3]
+    labels.add('dup-registered:first-api-' + a_api)
   else:
     params = [p for grp in names_of(norm_sig(kind, TAG_SIG)) for p in grp]
     unknown = ['zz', 'nope', 'a9'][variant % 3]
@@ -810,12 +843,14 @@ def check_invalid(case):
   # names the object would get by default -- well-formed dotted identifiers only
   intended = '.'.join(x for x in (module, name) if x)
   names = {s for full, _, _ in priors for s in suffixes(full)}
-  for full in ('pk.mod.' + NM, MOD_A + '.K', MOD_A + '.' + NM, intended):
+  for full in ('pk.mod.' + NM, MOD_A + '.K', MOD_A + '.' + NM, OTHER_FULL, intended):
     names.update(suffixes(full))
   names = sorted(n for n in names if re.fullmatch(r'[A-Za-z_]\w*(\.[A-Za-z_]\w*)*', n))
   objects = [(tag, f) for _, f, tag in priors] + [('new', obj)]
   if existing is not None:
     objects.append(('existing', existing.K))
+  if first_holder is not None:
+    objects.append(('first-holder', first_holder))
   before_vars = snap(obj)
   before = probe(names, objects)
   if priors or existing is not None:
@@ -832,7 +867,7 @@ def check_invalid(case):
     raised = e
   require(raised is not None, 'invalid-registration-accepted',
           lambda: f'{api} name={name!r} module={module!r} {lists} on a {kind} was accepted')
-  if fault in ('duplicate', 'both_lists'):
+  if fault in DUP_FAULTS + ('both_lists',):
     require(isinstance(raised, ValueError), 'invalid-registration-wrong-exception',
             lambda: f'{fault}: {type(raised).__name__}: {raised}')
   labels.add('rejected-with:' + type(raised).__name__)
@@ -849,6 +884,17 @@ def check_invalid(case):
     who = made_by(gin.get_configurable('pk.mod.' + NM))
     require(who == MOD_T, 'rejected-registration-changed-registry',
             f'pk.mod.nm now reaches the object of {who}, expected {MOD_T}')
+  if first_holder is not None:
+    who = made_by(gin.get_configurable(OTHER_FULL))
+    require(who == MOD_A, 'rejected-registration-changed-registry',
+            f'{OTHER_FULL} now reaches the object of {who}, expected {MOD_A}')
+    try:
+      ver = gin.get_configurable(first_holder)
+    except (ValueError, LookupError) as e:
+      raise Violation('registry-version-unreachable', f'get_configurable(first holder): {e}')
+    who = made_by(ver)
+    require(who == MOD_A, 'rejected-registration-changed-registry',
+            f'get_configurable(first holder) now reaches the object of {who}')
   require(not interactive or _interactive_is_off(), 'interactive-mode-not-ended', 'after the block')
   nt = (kind != 'init' or api != 'configurable') and 'invalid:registry-nonempty' in labels
   if nt:
@@ -1003,7 +1049,7 @@ def _target_case(draw):
 def _invalid_case(draw):
   return {'kind': 'invalid', 'target': draw(st.sampled_from(INVALID_TARGETS)),
           'api': draw(st.sampled_from(APIS)), 'fault': draw(st.sampled_from(FAULTS)),
-          'variant': draw(st.integers(0, 53)), 'prior': draw(st.integers(0, 3)),
+          'variant': draw(st.integers(0, 161)), 'prior': draw(st.integers(0, 3)),
           'interactive': draw(st.booleans())}
 
 
@@ -1042,7 +1088,7 @@ def sweep_cells(tier):
 def sweep_forms(tier):
   del tier
   cases = []
-  for kind in ('fn', 'init', 'meta', 'callobj', 'namedtuple', 'methwrap'):
+  for kind in ('fn', 'wrapped_fn', 'init', 'meta', 'callobj', 'namedtuple', 'methwrap'):
     for api, form in itertools.product(APIS, forms_for(kind)):
       sig = norm_sig(kind, RICH_SIG)
       cases.append({'kind': 'target', 'shape': kind, 'api': api, 'form': form, 'scope': 's',
@@ -1052,14 +1098,16 @@ def sweep_forms(tier):
 
 def sweep_invalid(tier):
   cases = []
-  for target, api, fault in itertools.product(['fn', 'init', 'meta', 'namedtuple', 'callobj'],
-                                              APIS, FAULTS):
+  for target, api, fault in itertools.product(['fn', 'init', 'meta', 'namedtuple', 'callobj',
+                                               'wrapped_fn'], APIS, FAULTS):
     # every variant of every fault for plain functions (all APIs) and for the metaclass shape
     # through external_configurable; three variants per fault for the rest
     full = target == 'fn' or (target == 'meta' and api == 'external') or tier == 'thorough'
-    nvar = {'bad_name': 16, 'bad_module': 16, 'duplicate': 27}.get(fault, 6) if full else 3
+    nvar = ({'bad_name': 16, 'bad_module': 16, 'duplicate': 27,
+             'duplicate_registered': 54}.get(fault, 6) if full else
+            (18 if fault == 'duplicate_registered' else 3))
     for variant in range(nvar):
-      for interactive in ((False, True) if fault != 'duplicate' and variant < 2 else (False,)):
+      for interactive in ((False, True) if fault not in DUP_FAULTS and variant < 2 else (False,)):
         cases.append({'kind': 'invalid', 'target': target, 'api': api, 'fault': fault,
                       'variant': variant, 'prior': 2, 'interactive': interactive})
   return cases, True
@@ -1068,7 +1116,8 @@ def sweep_invalid(tier):
 def sweep_interactive(tier):
   del tier
   cases = [{'kind': 'interactive', 'target': t, 'api': a1, 'api2': a2, 'exit': e, 'prior': 1}
-           for t, a1, a2, e in itertools.product(['fn', 'init', 'meta', 'callobj'], APIS, APIS,
+           for t, a1, a2, e in itertools.product(['fn', 'init', 'meta', 'callobj', 'wrapped_fn'],
+                                                 APIS, APIS,
                                                  EXITS)]
   return cases, True
 
